@@ -7,6 +7,7 @@ from .base import (
     TY, T_LIST, T_TUPLE, T_DICT, T_SET, T_STR, ISINST, clsref, strref, IDOF, Marker,
 )
 from .symex import Raise, dotted
+from .base import qforall
 
 
 FIDX = z3.Function("ghost_filter_src_index", SeqI, I, I, I)  # (source value, comprehension id, result index) -> source index
@@ -27,9 +28,9 @@ def filter_map_axioms(seq, rs, cid, P, f):
     ri = lambda x: RIDX(seq, cid, x)
     return [
         m <= n,
-        z3.ForAll([i], z3.Implies(z3.And(i >= 0, i < m), z3.And(fi(i) >= 0, fi(i) < n, P(fi(i)), rs[i] == f(fi(i)))), patterns=[fi(i)]),
-        z3.ForAll([i, i2], z3.Implies(z3.And(i >= 0, i < i2, i2 < m), fi(i) < fi(i2)), patterns=[z3.MultiPattern(fi(i), fi(i2))]),
-        z3.ForAll([j], z3.Implies(z3.And(j >= 0, j < n, P(j)), z3.And(ri(j) >= 0, ri(j) < m, fi(ri(j)) == j)), patterns=[ri(j), seq[j]]),
+        qforall([i], z3.Implies(z3.And(i >= 0, i < m), z3.And(fi(i) >= 0, fi(i) < n, P(fi(i)), rs[i] == f(fi(i)))), patterns=[fi(i)]),
+        qforall([i, i2], z3.Implies(z3.And(i >= 0, i < i2, i2 < m), fi(i) < fi(i2)), patterns=[z3.MultiPattern(fi(i), fi(i2))]),
+        qforall([j], z3.Implies(z3.And(j >= 0, j < n, P(j)), z3.And(ri(j) >= 0, ri(j) < m, fi(ri(j)) == j)), patterns=[ri(j), seq[j]]),
         # ground instance for the first element (the one `if result:` style tests need)
         z3.Implies(m > 0, z3.And(fi(z3.IntVal(0)) >= 0, fi(z3.IntVal(0)) < n, P(fi(z3.IntVal(0))), rs[0] == f(fi(z3.IntVal(0))))),
     ]
